@@ -109,7 +109,9 @@ func runServiceRules(c *Ctx) {
 			if call, isCall := cond.(*ssa.Call); isCall && calleeName(call) == "(time.Time).Before" && val {
 				recv := b.bind(call.Call.Args[0])
 				arg := b.bind(call.Call.Args[1])
-				isDate := func(s string) bool { return strings.Contains(s, "parseTime(col:date") && !strings.Contains(s, "StartDate") && !strings.Contains(s, "EndDate") }
+				isDate := func(s string) bool {
+					return strings.Contains(s, "parseTime(col:date") && !strings.Contains(s, "StartDate") && !strings.Contains(s, "EndDate")
+				}
 				own := canon(call.Call.Args[0])
 				other := canon(call.Call.Args[1])
 				_ = recv
@@ -497,19 +499,41 @@ func runAlertRules(c *Ctx) {
 			}
 		}
 	}
-	// direction of the fallback: both/none -> unspecified, otherwise the single direction
+	// direction of the fallback: a direction is stored only as "False under directions[False]" or "True when
+	// directions[False] does not hold (or directions[True] does)"; both constants occur
 	b2 := newBinder(c)
 	var dirStores []string
-	for _, fs := range collectFieldStores([]*ssa.Function{fn}, "gtfs.AlertInformedEntity") {
-		if fs.field == "DirectionID" && !sel.Blocks[fs.store.Block()] {
-			dirStores = append(dirStores, b2.bind(fs.store.Val))
+	fConst := c.constOf("gtfs", "DirectionID_False")
+	tConst := c.constOf("gtfs", "DirectionID_True")
+	sawF, sawT, okDir := false, false, true
+	for _, fs := range collectFieldStores(c.regionOf(fn), "gtfs.AlertInformedEntity") {
+		if fs.field != "DirectionID" || (fs.fn == fn && sel.Blocks[fs.store.Block()]) {
+			continue
+		}
+		alts := storeAlternatives(b2, fs.store.Val)
+		if len(alts) == 0 {
+			alts = []storeAlt{{nil, b2.bind(fs.store.Val)}}
+		}
+		base := guardStrings(b2, fs.store.Block())
+		for _, alt := range alts {
+			gs := append(append([]string{}, base...), alt.guards...)
+			dirStores = append(dirStores, alt.val)
+			switch alt.val {
+			case fConst:
+				sawF = true
+				if !hasGuard(gs, "+", "lookup(", ","+fConst+")") {
+					okDir = false
+				}
+			case tConst:
+				sawT = true
+				if !(hasGuard(gs, "-", "lookup(", ","+fConst+")") || hasGuard(gs, "+", "lookup(", ","+tConst+")")) {
+					okDir = false
+				}
+			default:
+				okDir = false
+			}
 		}
 	}
-	okDir := len(dirStores) == 1
-	if okDir {
-		f := strings.TrimPrefix(c.constOf("gtfs", "DirectionID_False"), "const:")
-		t := strings.TrimPrefix(c.constOf("gtfs", "DirectionID_True"), "const:")
-		okDir = strings.Contains(dirStores[0], "const:"+f) && strings.Contains(dirStores[0], "const:"+t)
-	}
-	c.Check(okDir, "ALERT", fname, "fallback direction is the single named direction", p.pos(fn.Pos()), "one-direction fallback stores False or True; the both-directions fallback leaves it unspecified", fmt.Sprintf("fallback direction stores: %v", dirStores))
+	okDir = okDir && sawF && sawT
+	c.Check(okDir, "ALERT", fname, "fallback direction is the single named direction", p.pos(fn.Pos()), "False is stored under directions[False], True otherwise; the both-directions fallback leaves it unspecified", fmt.Sprintf("fallback direction stores: %v", dirStores))
 }
